@@ -210,7 +210,8 @@ class Multiprocessor(Filter[Iterable[Any], Iterable[Any]]):
             self._load_stopper = Stopper() #this works because the loader is a thread which means we have shared memory
 
             load_line   = SourceSink(IterableSource(items), self._load_stopper, pickler, in_put)
-            filter_line = SourceSink(in_get, setter, unpickler, get_max, Safe(Foreach(self._filter)), out_put)
+            #the outputs are pickled so that none of them can be mistaken for the poison (an output can be None)
+            filter_line = SourceSink(in_get, setter, unpickler, get_max, Safe(Foreach(self._filter)), pickler, out_put)
 
             def loader_finished_or_failed(worker: Union[ThreadLine,ProcessLine]):
                 if worker.exception: self._exceptions.append(worker.exception)
@@ -258,7 +259,7 @@ class Multiprocessor(Filter[Iterable[Any], Iterable[Any]]):
                         if read_waiters and isinstance(i, UniqueKey):
                             read_waiters[i].set()
                         else:
-                            yield i
+                            yield from unpickler.filter([i])
 
             finally:
 
